@@ -76,6 +76,11 @@ EXTRA_SNIPPETS = {
     "fullA2": ("Alphaxo v. Omicronxo, 7 F.2d 70 (1940)", "FullCaseCitation", 0),
     "refA2": ("Alphaxo v. Omicronxo, 7 F.2d 70 (1940). In Omicronxo at 71 we see", "ReferenceCitation", 0),
     "refAlpha": ("Alphaxo v. Omicronxo, 7 F.2d 70 (1940). In Alphaxo at 72 we see", "ReferenceCitation", 0),
+    # a case cited by a single name only, and another case with that party name
+    "fullAnte": ("Nobelmanxo, 508 U.S. 324, 330 (1993)", "FullCaseCitation", 0),
+    "fullNob2": ("Nobelmanxo v. Acmexo, 520 U.S. 17 (1997)", "FullCaseCitation", 0),
+    "refNob": ("Nobelmanxo v. Acmexo, 520 U.S. 17 (1997). In Nobelmanxo at 19 we see", "ReferenceCitation", 0),
+    "supraNob": ("Nobelmanxo, supra, at 20.", "SupraCitation", 0),
     "supraPunct": ("the rule ..., supra, at 4.", "SupraCitation", 0),      # antecedent of punctuation only
     "supraDash": ("as noted --, supra.", "SupraCitation", 0),
 }
@@ -129,6 +134,7 @@ FOCUS["antecedent"] = ["fullD", "fullE", "fullMc", "fullDon", "supraEdu", "supra
                        "shortEdu", "shortSmith", "supraPunct"]
 FOCUS["periods"] = ["fullNLRB", "fullNLRBplain", "supraNLRB", "shortNLRB", "supraNLRBplain", "idValid"]
 FOCUS["reference"] = ["fullA", "fullA2", "fullB", "refA", "refA2", "refAlpha", "supraA", "shortA_named", "idNoPin"]
+FOCUS["name_only"] = ["fullAnte", "fullNob2", "refNob", "supraNob", "fullA", "refA"]
 FOCUS_LMAX = {3: 4, 5: 5}     # base bound -> focus bound
 
 
@@ -399,7 +405,7 @@ def resolution_doc(rng):
 
 COLLISION_KINDS = ["fullA", "fullA2", "fullAdup", "fullB", "fullD", "fullE", "fullMc", "fullDon", "supraA", "supraB", "supraEdu",
                    "supraRoe", "supraDon", "supraBoard", "shortEdu", "shortSmith", "shortA_named", "refA", "refA2", "refAlpha",
-                   "idValid", "idNoPin"]
+                   "idValid", "idNoPin", "fullAnte", "fullNob2", "refNob", "supraNob"]
 
 
 def collision_sequences(rng, n):
